@@ -250,6 +250,7 @@ package store
 
 //@ func (*heightSub).Init(hs, height)
 //@   props C04, C12
+//@   resets heightSub.height -- Init publishes a height unconditionally: first publication (first append, Start) and head-side deletions, where Height() is meant to follow the head backward; it is not one of the racing writers of C17
 //@   requires hs != nil
 //@   ensures [C04,seq] published: atomicU64(hs.height) == height
 //@   modifies AT_u64, sub.count, MH_Int_Int_has, MH_Int_Int_val, ghost:arrived
